@@ -574,7 +574,7 @@ def i_DISPOSE(i, fmap):
     if len(i.operands) == 3:
         dst = i.operands[2]
         fmap[pc] = fmap(dst)
-    src, L = i.operands[0:2]
+    src, L = i.operands[0], i.reglist
     x = src.a.disp
     # set regs:
     for r in L:
@@ -588,7 +588,7 @@ def i_DISPOSE(i, fmap):
 
 @_pc
 def i_PREPARE(i, fmap):
-    L, imm5 = i.operands[0:2]
+    L, imm5 = i.reglist, i.operands[1]
     disp = 0
     # set regs:
     for r in L:
